@@ -47,6 +47,12 @@ def check(ctx, rep):
     flags = cancelling_flags(ctx)
     classes = [c for c in prog.subclasses(mf) if c.lookup(cb.name)[1] is cb]
     rep.count("MapFuture classes sharing the resolution callback", len(classes), 5)
+    # composition (map . map) works through done-callbacks: the inner map future's completion and the outer one's
+    # callback registration must exclude each other, or the outer function is never called (shared with C02)
+    from .c02 import trans_rule, addcb_rule
+    from ..roles import proto
+    trans_rule(ctx, rep, classes, proto(ctx).dispatch, proto(ctx).lock)
+    addcb_rule(ctx, rep)
     for ci in classes:
         stages = [("", None)]
         if ci is M.fmf:
